@@ -1,13 +1,19 @@
-"""C05/C14 helpers: the verified format walker (coq/Decode.v `walk`) and the verified write-once
-checker (coq/WriteOnce.v `check_log`), both extracted to OCaml (ocaml/drv_walk.ml, kinds "walk"
+"""C05/C14 helpers: the verified format walker (coq/Decode.v `dw_walk`) and the verified write-once
+checker (coq/WriteOnce.v `wo_check_log`), both extracted to OCaml (ocaml/drv_walk.ml, kinds "walk"
 and "checklog"), run on real files / real backend write logs produced by the implementation.
 
-    walk_files(ctx, paths)  -> list of verdict strings ("OK ..." / "ERR <check> <offset>")
-    check_logs(ctx, paths)  -> list of verdict strings ("OK ..." / "FAIL <index> <reason>")
-    gen_case(rng, tier)     -> (writer program for the prog kind WITHOUT save/logdump, meta)
-    run_walk(ctx, n=None)   -> generates programs, runs them on the implementation with save/logdump
-                               into ctx.tmp, runs both checkers, routes failures through ctx.violation
+    walk_files(ctx, paths, mode="strict")  -> list of verdict strings: "OK chunks=.. tags=.. ppl=[..] slack=.. content=<fnv64>[ | dump]"
+                                              or "ERR <check> <offset>"; modes: strict | report | dump
+    check_logs(ctx, paths)                 -> list of verdict strings: "OK <n> writes: a appends, h header links, t head tables, f file headers"
+                                              or "FAIL <index> <reason>[ (ignoring payload_prev_length: <verdict>)]"
+    gen_case(rng, tier)                    -> (writer program for the prog kind WITHOUT save/logdump, meta)
+    run_walk(ctx, n=None, ...)             -> generates programs, runs them on the implementation with save/logdump into ctx.tmp,
+                                              runs both checkers, compares the decoder's content with the library's own reader,
+                                              routes failures through ctx.violation; returns the number of violations recorded
+    compare_with_reader(verdict, reader_out, ids), reader_ops(script), classify_ppl(items), parse_ppl(verdict)
 
+Signatures of the known class: SIG_PPL_EMPTY, SIG_PPL_SRC.  The caller must have run vlib.build with the kinds
+prog (C side) and walk/checklog (model side: ocaml/drv_walk.ml) and the Coq files Properties_C05.v / Properties_C14.v.
 The integrator owns tools/props/C05.py and C14.py; they call run_walk (or the pieces).
 """
 import os, re
@@ -286,7 +292,7 @@ def compare_with_reader(walk_verdict, reader_out, ids):
     return out
 
 
-def run_walk(ctx, n=None, variant="plain", scripts=None, with_reader=True):
+def run_walk(ctx, n=None, variant="plain", scripts=None, with_reader=True, parts=("walk", "log")):
     """Generate programs, run them on the implementation, walk every produced file and check every write log.
     Assumes vlib.build has been called by the caller (needs the `prog` kind and kinds walk/checklog).
     Returns the number of violations recorded (known findings excluded)."""
@@ -326,7 +332,9 @@ def run_walk(ctx, n=None, variant="plain", scripts=None, with_reader=True):
         if bad_ops:
             nv += ctx.violation("walk_case_%d.txt" % i, replay, "writer program did not run to completion: %s" % bad_ops[0], sig=None)
             continue
-        if not w.startswith("OK"):
+        if "walk" not in parts:
+            pass
+        elif not w.startswith("OK"):
             nv += ctx.violation("walk_case_%d.txt" % i, replay, "format walk of a produced file failed: %s" % w[:160], sig=None)
         else:
             items = parse_ppl(wshort)
@@ -343,7 +351,7 @@ def run_walk(ctx, n=None, variant="plain", scripts=None, with_reader=True):
                 if diffs:
                     nv += ctx.violation("walk_reader_%d.txt" % i, replay + "\nreader: %s\n\n%s\n" % (rd_part[:3000], "\n".join(diffs)),
                                         "independent decoder and library reader disagree: %s" % diffs[0][:200], sig=None)
-        if not l.startswith("OK"):
+        if "log" in parts and not l.startswith("OK"):
             sig = None
             # strict checker: the only known class is the SOURCE_DEF header rewrite that zeroes payload_prev_length,
             # and only if everything else passes (the lenient verdict is appended by the driver)
